@@ -1292,7 +1292,7 @@ inline vf::CaseResult run_case(const vf::RunnerArgs& args, const std::vector<std
     static std::string pf_key;
     if (pf_key != args.prop + "/" + args.tier + "/" + args.extra) {
         pf = make_profile(args.prop, args.tier);
-        if (args.extra == "enum1" || args.extra == "enum2") {
+        if (args.extra == "enum1" || args.extra == "enum2" || args.extra == "enum2c") {
             // bounded-exhaustive stage: two threads, few ops, every schedule with <= 1 (enum1) / <= 2 (enum2) preemptions
             pf.min_threads = pf.max_threads = 2;
             pf.max_ops = 2;
@@ -1307,7 +1307,8 @@ inline vf::CaseResult run_case(const vf::RunnerArgs& args, const std::vector<std
     if (args.verbose) { std::fprintf(stderr, "SCENARIO\n%s", sc.text().c_str()); }
     auto& S = sched::Scheduler::get();
     S.fatal_on_step_limit = pf.prop == "C09"; // non-termination under a fair schedule is what C09 is about
-    if (args.extra != "enum1" && args.extra != "enum2") {
+    S.script_conflict_from = ~std::size_t{0};
+    if (args.extra != "enum1" && args.extra != "enum2" && args.extra != "enum2c") {
         S.use_script = false;
         return run_scenario(pf, sc, bytes, record, st);
     }
@@ -1328,7 +1329,10 @@ inline vf::CaseResult run_case(const vf::RunnerArgs& args, const std::vector<std
     const bool two = args.extra == "enum2";
     for (int first = 0; first < 2 && res.pass; ++first) {
         const int other = 1 - first;
-        for (std::uint64_t p = 1; p <= solo[first] && res.pass; ++p) {
+        // enum2c multiplies the first preemption points by the conflicting accesses behind them: long operations (cursors over
+        // many keys) are sampled at every stride-th step so that one scenario stays within ~150 x 60 x 2 runs (not exhaustive then)
+        const std::uint64_t stride = args.extra == "enum2c" && solo[first] > 150 ? (solo[first] + 149) / 150 : 1;
+        for (std::uint64_t p = 1; p <= solo[first] && res.pass; p += stride) {
             S.script = {{p, other}};
             S.script_first = first;
             res = run_scenario(pf, sc, bytes, record, st);
@@ -1337,6 +1341,27 @@ inline vf::CaseResult run_case(const vf::RunnerArgs& args, const std::vector<std
                 res.message = "schedule: T" + std::to_string(first) + " runs " + std::to_string(p) + " steps, then T" + std::to_string(other) +
                               " runs to completion, then T" + std::to_string(first) + " continues\n" + res.message;
                 break;
+            }
+            if (args.extra == "enum2c") {
+                // second preemption at the k-th conflicting access after the first switch (an access to a word the other thread wrote,
+                // or a write to a word it read): preempting anywhere else is equivalent to preempting at the next such access, so every
+                // k covers the second preemption points that matter without a bound on their distance
+                for (std::uint64_t k = 1; k <= 60 && res.pass; ++k) {
+                    S.script = {{p, other}, {k, first}};
+                    S.script_conflict_from = 1;
+                    S.script_first = first;
+                    res = run_scenario(pf, sc, bytes, record, st);
+                    S.script_conflict_from = ~std::size_t{0};
+                    if (record) { ++st.evaluations; }
+                    if (!res.pass) {
+                        res.message = "schedule: T" + std::to_string(first) + " runs " + std::to_string(p) + " steps, T" + std::to_string(other) +
+                                      " runs up to its " + std::to_string(k) + ". conflicting access, T" + std::to_string(first) + " continues to its end, then T" +
+                                      std::to_string(other) + "\n" + res.message;
+                        break;
+                    }
+                    if (S.script_fired() < 2) { break; } // fewer than k conflicting accesses: enumeration for this p is complete
+                }
+                continue;
             }
             if (!two) { continue; }
             // second preemption: the other thread is interrupted after q of its steps and the first one continues
